@@ -66,11 +66,11 @@ class C08(EgSpec):
         cons = field(pi, 'cons')
         for k, c in enumerate(cons[1:] if cons else []):
             if c != 'ok':
-                when = 'at the end of the history (nothing was observed between its operations)' if stream['name'].startswith('lazy') else 'after operation %d' % k
+                when = 'at the end of the history (nothing was observed between its operations)' if is_lazy_case(pc) else 'after operation %d' % k
                 out.append(('violation', 'inconsistent ' + core.sx_show(c)[:60], '%s the e-graph is inconsistent: %s (%s build); asserted: {%s}'
                             % (when, core.sx_show(c), stream['config'], '; '.join(describe_history(pc))), {'step': k}))
                 return out
-        if stream['name'].startswith('lazy'):
+        if is_lazy_case(pc):
             pm = core.sx_parse(model_obs) if model_obs is not None else None
             if pm is not None and isinstance(pm, list) and len(pm) > 1 and steps and core.sx_show(steps[-1]) != core.sx_show(pm[-1]):
                 out.append(('differs', 'model-final', 'the observation at the end of the unobserved history differs from the e-graph model\'s last step; no panic and no inconsistency on the implementation', {'model': core.sx_show(pm[-1])[:400]}))
